@@ -255,6 +255,56 @@ theorem sweep_closed_closed (profile2 : List (Pt2 ℝ)) (path : List (Pt3 ℝ)) 
 theorem strip_edges_nodup (n lo hi : Nat) (h : lo ≠ hi) : (allEdges (strip n lo hi)).Nodup :=
   MeshLemmas.strip_edges_nodup n lo hi h
 
+/-- **C04, no certificate needed.** A linear extrusion whose two cap triangulations are complete
+(n-2 triangles each — which the loop reports by its output length) is closed: every directed edge is
+matched by its reverse.  The edge half of the tiling certificate is a theorem about every complete
+run (`complete_run_boundary`), so only completeness is assumed. -/
+theorem linearExtrude_closed_of_complete (profile : List (Pt2 ℝ)) (height : ℝ) (p : Polyhedron ℝ)
+    (h : linearExtrude profile height = some p)
+    (hcomplete : ∀ bottom top, Tri.triangulate2dRev profile = some bottom → Tri.triangulate2d profile = some top →
+      bottom.length = 3 * (profile.length - 2) ∧ top.length = 3 * (profile.length - 2)) :
+    EdgeClosed (allEdges p.faces) := by
+  obtain ⟨b, t, hb, ht, hf, _⟩ := linearExtrude_faces profile height p h
+  obtain ⟨cb, ct⟩ := hcomplete b t hb ht
+  have hn : 3 < profile.length := by
+    unfold Tri.triangulate2d at ht; split at ht
+    · assumption
+    · simp at ht
+  have eb : b = Tri.triangulate (Tri.indexed profile).reverse := by
+    unfold Tri.triangulate2dRev at hb; rw [if_pos hn] at hb; injection hb with hb; exact hb.symm
+  have et : t = Tri.triangulate (Tri.indexed profile) := by
+    unfold Tri.triangulate2d at ht; rw [if_pos hn] at ht; injection ht with ht; exact ht.symm
+  subst eb; subst et
+  rw [hf, allEdges_append, allEdges_append]
+  apply capped_strip_closed' profile.length 0 1
+  · exact cap_backward profile (by omega) cb
+  · have := cap_forward profile profile.length (by omega) ct
+    rwa [ringF_shift] at this
+
+/-- the same for `loft` -/
+theorem loft_closed_of_complete (lower upper : List (Pt2 ℝ)) (height : ℝ) (p : Polyhedron ℝ)
+    (h : loft lower upper height = some p)
+    (hcomplete : ∀ bottom top, Tri.triangulate2dRev lower = some bottom → Tri.triangulate2d upper = some top →
+      bottom.length = 3 * (lower.length - 2) ∧ top.length = 3 * (lower.length - 2)) :
+    EdgeClosed (allEdges p.faces) := by
+  obtain ⟨hl, b, t, hb, ht, hf, _⟩ := loft_faces lower upper height p h
+  obtain ⟨cb, ct⟩ := hcomplete b t hb ht
+  have hn : 3 < upper.length := by
+    unfold Tri.triangulate2d at ht; split at ht
+    · assumption
+    · simp at ht
+  have eb : b = Tri.triangulate (Tri.indexed lower).reverse := by
+    unfold Tri.triangulate2dRev at hb; rw [if_pos (by omega)] at hb; injection hb with hb; exact hb.symm
+  have et : t = Tri.triangulate (Tri.indexed upper) := by
+    unfold Tri.triangulate2d at ht; rw [if_pos hn] at ht; injection ht with ht; exact ht.symm
+  subst eb; subst et
+  rw [hf, allEdges_append, allEdges_append]
+  apply capped_strip_closed' lower.length 0 1
+  · exact cap_backward lower (by omega) cb
+  · have := cap_forward upper lower.length (by omega) (by rw [← hl]; exact ct)
+    rw [← hl] at this
+    rwa [ringF_shift] at this
+
 /-- non-vacuity of the certificate: the two triangles of a square tile its ring -/
 example : CapTiles 4 0 true [[0, 1, 2], [0, 2, 3]] :=
   ⟨[(2, 0)], by decide⟩
